@@ -58,6 +58,14 @@ def kf_open(kid):
     except OSError:
         return False
 
+# is the execution space of (jdf, class) non-empty for the globals g?  (only used to pick the right vacuity witness)
+NONEMPTY = {
+    ("chain", "C"): lambda g: g[0] >= 1, ("grid", "G"): lambda g: g[0] >= 0 and g[1] >= 0, ("grid", "H"): lambda g: g[0] >= 0 and g[1] >= 0,
+    ("tree", "T"): lambda g: g[0] >= 0, ("tree", "S"): lambda g: True, ("derived", "P"): lambda g: g[0] >= -1, ("derived", "Q"): lambda g: g[0] >= -1,
+    ("pingpong", "PING"): lambda g: g[0] >= 0, ("pingpong", "PONG"): lambda g: g[0] >= 0,
+    ("startup", "STARTUP"): lambda g: min(g) >= 1, ("Ex02_Chain", "Task"): lambda g: g[0] >= 0,
+}
+
 def chunks(l, n):
     for i in range(0, len(l), n):
         yield l[i:i + n]
@@ -78,7 +86,7 @@ def queries(ctx):
                 for ci, ch in enumerate(chunks(vals, 6)):
                     qs.append(Q("count_%s_%s_r%d.%d_%d" % (name, cls, nr, me, ci), ["o1_count.c"],
                                 defs=cd + vdefs(ch) + ["VP_NRANKS=%d" % nr, "MYRANK=%d" % me] +
-                                (["EXPECT_REMOTE"] if nr > 1 and ci == 0 and (name, cls) not in (("startup", "STARTUP"), ("tree", "S")) else []),
+                                (["EXPECT_NONEMPTY"] if any(NONEMPTY[(name, cls)](v) for v in ch) else []),
                                 unwind=REFBOX[name] + 2, tiers=("quick", "thorough") if (nr, me) != (2, 0) else ("thorough",),
                                 info={"obligation": "O1 count", "symbolic": ["one task instance (box containment)"],
                                       "enumerated": {"globals": [list(v) for v in ch], "ranks": nr, "myrank": me},
@@ -124,10 +132,11 @@ def queries(ctx):
                                   "jdf": jdf, "class": cls, "functions": ["iterate_successors_of_%s_%s" % (name, cls), "make_key of every class",
                                                                          "internal_init of every class"]}, **base))
             # ---- O3 goal: real parsec_update_deps_with_mask/_counter + check_IN on the generated tables
-            for ci, ch in enumerate(chunks(vals, 6)):
+            gch = list(enumerate(chunks(vals, 6))) + [("ref", [vals[-1]])]
+            for ci, ch in gch:
                 d = cd + vdefs(ch) + ["MAXDEG=%d" % max(1, maxdeg)]
-                if ci > 0 and not ctx.thorough:
-                    d.append("NO_REFCHECK")      # reference IN/OUT cross-check: first chunk only in the quick tier (cost)
+                if ctx.thorough or ci == "ref":
+                    d.append("REFCHECK")         # reference IN/OUT cross-check: every chunk in the thorough tier; quick: one extra query on the largest valuation
                 if maxdeg == 0:
                     d.append("NO_PRED")
                 elif multi:
@@ -138,7 +147,7 @@ def queries(ctx):
                 for c2 in classes:
                     hooks += [x % (name, c2[0]) for x in ("%s_%s_internal_init", "hook_of_%s_%s_CPU", "complete_hook_of_%s_%s", "release_deps_of_%s_%s",
                                                           "data_lookup_of_%s_%s", "release_task_of_%s_%s")] + ["__jdf2c_startup_" + c2[0]]
-                qs.append(Q("goal_%s_%s_%d" % (name, cls, ci), ["o3_goal.c"], defs=d, units=ptg.UNITS + [PC], patches=TRIM_PARSEC_C,
+                qs.append(Q("goal_%s_%s_%s" % (name, cls, ci), ["o3_goal.c"], defs=d, units=ptg.UNITS + [PC], patches=TRIM_PARSEC_C,
                             remove_bodies=hooks,
                             unwind=max(20, maxdeg + 3, REFBOX.get(name, 14) + 2),
                             info={"obligation": "O3 goal / in-degree", "symbolic": ["destination instance s", "delivery order (rotation)"],
